@@ -217,3 +217,193 @@ func TestWatchesSharingAStreamSurviveAConsumerPause(t *testing.T) {
 		}
 	}
 }
+
+// TestWatchIdsAndCancelsOnOneStream (C05 / C16 / C13, run by kbcheck with KB_WATCH_STREAM=1): several watches on ONE real gRPC
+// stream. (1) the id handed to a new watch is never the id of a watch that is still live on the stream - also after a watch
+// that is not the newest has ended - and every event arrives under the id of the watch whose prefix it matches; (2) a watch is
+// ended with exactly one `canceled` response, also when the server's own refusal of a range stream (negative start revision
+// without a range end) overlaps the client's cancel request for the same id.
+func TestWatchIdsAndCancelsOnOneStream(t *testing.T) {
+	if os.Getenv("KB_WATCH_STREAM") == "" {
+		t.Skip("run by kbcheck (C05) with KB_WATCH_STREAM=1; not part of the race workloads")
+	}
+	fs := flag.NewFlagSet("klog", flag.ContinueOnError)
+	klog.InitFlags(fs)
+	_ = fs.Set("logtostderr", "false")
+	_ = fs.Set("stderrthreshold", "FATAL")
+	klog.SetOutput(io.Discard)
+	m := mock.NewMinimalMetrics(gomock.NewController(t))
+	be := backend.NewBackend(imemkv.NewKvStorage(), backend.Config{Prefix: "/registry", Identity: "n", EnableEtcdCompatibility: true}, m)
+	be.SetCurrentRevision(100)
+	lis, err := net.Listen("tcp", "127.0.0.1:0")
+	if err != nil {
+		t.Fatal(err)
+	}
+	le := &leader.Stub{ElectionInfo: leader.ElectionInfo{IsLeader: true, LeaderAddress: lis.Addr().String()}}
+	gs := grpc.NewServer()
+	etcd.New(be, m, service.NewPeerService(le, m, be, service.Config{})).Register(gs)
+	go func() { _ = gs.Serve(lis) }()
+	defer gs.Stop()
+	conn, err := grpc.Dial(lis.Addr().String(), grpc.WithInsecure(), grpc.WithDefaultCallOptions(grpc.MaxCallRecvMsgSize(math.MaxInt32)))
+	if err != nil {
+		t.Fatal(err)
+	}
+	defer conn.Close()
+	ctx, cancel := context.WithTimeout(context.Background(), 120*time.Second)
+	defer cancel()
+	stream, err := etcdserverpb.NewWatchClient(conn).Watch(ctx)
+	if err != nil {
+		t.Fatal(err)
+	}
+	msgs := make(chan *etcdserverpb.WatchResponse, 100000)
+	go func() {
+		for {
+			resp, err := stream.Recv()
+			if err != nil {
+				close(msgs)
+				return
+			}
+			msgs <- resp
+		}
+	}()
+	next := func(d time.Duration) *etcdserverpb.WatchResponse {
+		select {
+		case r, ok := <-msgs:
+			if !ok {
+				return nil
+			}
+			return r
+		case <-time.After(d):
+			return nil
+		}
+	}
+	createWatch := func(prefix string) int64 {
+		end := []byte(prefix)
+		end[len(end)-1]++
+		if err := stream.Send(&etcdserverpb.WatchRequest{RequestUnion: &etcdserverpb.WatchRequest_CreateRequest{
+			CreateRequest: &etcdserverpb.WatchCreateRequest{Key: []byte(prefix), RangeEnd: end, PrevKv: true}}}); err != nil {
+			t.Fatal(err)
+		}
+		for {
+			r := next(10 * time.Second)
+			if r == nil {
+				t.Fatalf("watch create on %s: no answer", prefix)
+			}
+			if r.Created {
+				return r.WatchId
+			}
+		}
+	}
+	kvc := etcdserverpb.NewKVClient(conn)
+	put := func(key string) {
+		k := []byte(key)
+		resp, err := kvc.Txn(ctx, &etcdserverpb.TxnRequest{
+			Compare: []*etcdserverpb.Compare{{Key: k, Target: etcdserverpb.Compare_MOD, Result: etcdserverpb.Compare_EQUAL,
+				TargetUnion: &etcdserverpb.Compare_ModRevision{ModRevision: 0}}},
+			Success: []*etcdserverpb.RequestOp{{Request: &etcdserverpb.RequestOp_RequestPut{RequestPut: &etcdserverpb.PutRequest{Key: k, Value: []byte("v")}}}},
+		})
+		if err != nil || !resp.Succeeded {
+			t.Fatalf("create %s: %v %v", key, resp, err)
+		}
+	}
+
+	// (1) ids
+	idA := createWatch("/registry/a/")
+	idB := createWatch("/registry/b/")
+	if idA == idB {
+		t.Fatalf("two live watches on one stream share the id %d", idA)
+	}
+	if err := stream.Send(&etcdserverpb.WatchRequest{RequestUnion: &etcdserverpb.WatchRequest_CancelRequest{
+		CancelRequest: &etcdserverpb.WatchCancelRequest{WatchId: idA}}}); err != nil {
+		t.Fatal(err)
+	}
+	for {
+		r := next(10 * time.Second)
+		if r == nil {
+			t.Fatalf("cancel of watch %d: no canceled response", idA)
+		}
+		if r.Canceled && r.WatchId == idA {
+			break
+		}
+	}
+	idC := createWatch("/registry/c/")
+	if idC == idB {
+		t.Errorf("the watch on /registry/c/ was given id %d, which the live watch on /registry/b/ still holds", idC)
+	}
+	put("/registry/b/x")
+	put("/registry/c/y")
+	seenB, seenC := false, false
+	for !(seenB && seenC) {
+		r := next(5 * time.Second)
+		if r == nil {
+			t.Errorf("events of /registry/b/x (seen=%v) and /registry/c/y (seen=%v) did not both arrive", seenB, seenC)
+			break
+		}
+		for _, e := range r.Events {
+			switch string(e.Kv.Key) {
+			case "/registry/b/x":
+				seenB = true
+				if r.WatchId != idB {
+					t.Errorf("the event of /registry/b/x arrived under watch id %d, the watch on /registry/b/ has id %d", r.WatchId, idB)
+				}
+			case "/registry/c/y":
+				seenC = true
+				if r.WatchId != idC {
+					t.Errorf("the event of /registry/c/y arrived under watch id %d, the watch on /registry/c/ has id %d", r.WatchId, idC)
+				}
+			}
+		}
+	}
+
+	// (2) exactly one `canceled` per watch: a range stream the server refuses (no range end), its id cancelled by the client at
+	// the same moment. Ids are predictable on the unchanged tree (a process-wide counter); where they are not, the cancel
+	// names an id that does not exist and only the server's own `canceled` is counted.
+	rounds := 150
+	double := 0
+	last := idC
+	for i := 0; i < rounds && double == 0; i++ {
+		guess := last + 1
+		if err := stream.Send(&etcdserverpb.WatchRequest{RequestUnion: &etcdserverpb.WatchRequest_CreateRequest{
+			CreateRequest: &etcdserverpb.WatchCreateRequest{Key: []byte("/registry/r/"), StartRevision: -100}}}); err != nil {
+			t.Fatal(err)
+		}
+		if err := stream.Send(&etcdserverpb.WatchRequest{RequestUnion: &etcdserverpb.WatchRequest_CancelRequest{
+			CancelRequest: &etcdserverpb.WatchCancelRequest{WatchId: guess}}}); err != nil {
+			t.Fatal(err)
+		}
+		canceled := map[int64]int{}
+		var id int64 = -1
+		deadline := time.After(3 * time.Second)
+	collect:
+		for {
+			select {
+			case r, ok := <-msgs:
+				if !ok {
+					t.Fatalf("round %d: the stream broke", i)
+				}
+				if r.Created && id < 0 {
+					id = r.WatchId
+				}
+				if r.Canceled {
+					canceled[r.WatchId]++
+				}
+			case <-time.After(40 * time.Millisecond):
+				if id >= 0 && canceled[id] >= 1 {
+					break collect
+				}
+			case <-deadline:
+				break collect
+			}
+		}
+		if id < 0 || canceled[id] == 0 {
+			t.Errorf("round %d: a range stream without a range end was not answered created + canceled (id %d, canceled %v)", i, id, canceled)
+			break
+		}
+		if canceled[id] > 1 {
+			double++
+			t.Errorf("round %d: watch %d was ended with %d `canceled` responses, want exactly 1 (clientv3 closes a channel per `canceled`: the second one kills the client)", i, id, canceled[id])
+		}
+		last = id
+	}
+	t.Logf("watch-ids: ids %d %d %d on one stream; %d refused range streams each cancelled by the client at the same moment", idA, idB, idC, rounds)
+}
